@@ -227,6 +227,14 @@ cached = functools.lru_cache(maxsize=None)(inner)
 def f(a, *args, **kwargs): return cached(*args, **kwargs)
 shared = [f, cached]
 ''', [('sigtools', 'f'), ('inspect', 'cached'), ('sigtools', 'cached')]),
+    # a modifiers wrapper over a function whose source cannot be retrieved (defined through exec): the hint declines
+    'S13-modifier-over-function-without-source': ('''
+_ns = {"inner": inner}
+exec("def raw(self, a, *args, k, **kwargs): return inner(*args, **kwargs)", _ns)
+class B(object):
+    m = modifiers.posoargs(end='a')(_ns["raw"])
+shared = [B.__dict__['m']]
+''', [('sigtools-attr', 'B.m'), ('inspect-attr', 'B.m'), ('sigtools-attr', 'B.m')]),
     'S7-three-threads-on-wraps': ('f = deco(inner)\nshared = [f]', [('sigtools', 'f'), ('inspect', 'f'), ('sigtools', 'f')]),
     'S7b-three-threads-mixed': ('''
 g = deco(inner)
